@@ -225,6 +225,9 @@ class Flow:
                 sp = _split_sum(base)
                 if sp is not None:
                     return "%s[%s].%s" % (sp[0], sp[1], n["name"])       # (p + i)->f  ==  p[i].f
+                mm_ = re.search(r"(?:->|\.)(\w+)$", base)
+                if mm_ and mm_.group(1) in self.m.array_fields():
+                    return "%s[0].%s" % (base, n["name"])                # q->F->g  ==  q->F[0].g
             return base + ("->" if n.get("isArrow") else ".") + n["name"]
         if k == "UnaryOperator":
             op = n.get("opcode")
@@ -233,6 +236,9 @@ class Flow:
                 sp = _split_sum(inner)
                 if sp is not None:
                     return "%s[%s]" % (sp[0], sp[1])
+                mm_ = re.search(r"(?:->|\.)(\w+)$", inner)
+                if mm_ and mm_.group(1) in self.m.array_fields():
+                    return "%s[0]" % inner
             if op == "&" and inner.startswith("*"):
                 return inner[1:]
             if op == "*" and inner.startswith("&"):
